@@ -661,6 +661,8 @@ class MindsDBParser(Parser):
             type = p[1].parts[-1]
         else:
             type = p[1]
+        if not isinstance(type, str):
+            raise ParsingException(f'Wrong object type in DESCRIBE: {p[1].to_string()}')
         type = type.replace(' ', '_')
         return Describe(value=p[2], type=type)
 
@@ -1471,6 +1473,8 @@ class MindsDBParser(Parser):
             name = p.identifier.parts[-1]
         else:
             name = p.function_name
+        if not isinstance(name, str) or (namespace is not None and not isinstance(namespace, str)):
+            raise ParsingException(f'Wrong function name: {p.identifier.to_string()}')
         return Function(op=name, args=args, namespace=namespace)
 
     @_('INTERVAL string')
@@ -1676,6 +1680,8 @@ class MindsDBParser(Parser):
     def kw_parameter(self, p):
         key = getattr(p, 'identifier', None) or getattr(p, 'identifier0', None)
         assert key is not None
+        if not all(isinstance(part, str) for part in key.parts):
+            raise ParsingException(f'Wrong parameter name: {key.to_string()}')
         key = '.'.join(key.parts)
         return {key:p[2]}
 
